@@ -106,4 +106,43 @@ def sfStep (forgetAtStart : Bool) (s : SF) : SFOp → SF
   | .finish k =>
     if k ∈ s.running then { inMap := s.inMap.filter (· ≠ k), running := s.running.erase k } else s
 
+/-! Lazy refresh (`Cache.Exec` lazy-hit path + `doLazyUpdate`). -/
+
+/-- The rest of the chain behind the cache plugin, seen as what it does to the
+response slot of the context it runs on (`none` = no response). A failing
+upstream, an upstream that yields nothing: `id`; an upstream that answers `m`:
+`fun _ => some m`; "only forward when there is no response yet" (a `has_resp`
+guard in front of the upstream): `guarded m`. -/
+abbrev Chain := Option Msg → Option Msg
+
+def guarded (m : Msg) : Chain
+  | some x => some x
+  | none => some m
+
+/-- The response slot of the context copy handed to the background refresh.
+`copyBeforeSet = true` is the code as written: `doLazyUpdate` (whose first
+statement copies the context) is called before the stale answer is put into
+the client's context, so the copy carries no response. -/
+def refreshInitial (copyBeforeSet : Bool) (served : Msg) : Option Msg :=
+  if copyBeforeSet then none else some served
+
+/-- The function `doLazyUpdate` hands to singleflight, run at `now`: the chain
+runs on the copy; whatever response the copy holds afterwards goes through
+`saveRespToCache`; nothing is stored when there is none (or it is not admitted). -/
+def refresh (copyBeforeSet : Bool) (lazyTtl : Int) (staleTtl : UInt32) (it : Item) (chain : Chain) (now : Nat) : Item :=
+  match chain (refreshInitial copyBeforeSet (it.msg.mapRR (setRR staleTtl))) with
+  | none => it
+  | some m => (store lazyTtl m now).getD it
+
+/-- One question asked at the given times (lazy caching on), every stale hit
+followed by a refresh that runs to completion before the next query. The run
+ends with the first miss (the client's own query then goes upstream). -/
+def lazyRun (copyBeforeSet : Bool) (lazyTtl : Int) (staleTtl : UInt32) (chain : Chain) : Item → List Nat → List Served
+  | _, [] => []
+  | it, t :: ts =>
+    match serve true staleTtl it t t with
+    | .miss => [.miss]
+    | .fresh m => .fresh m :: lazyRun copyBeforeSet lazyTtl staleTtl chain it ts
+    | .stale m => .stale m :: lazyRun copyBeforeSet lazyTtl staleTtl chain (refresh copyBeforeSet lazyTtl staleTtl it chain t) ts
+
 end Model.C05
